@@ -101,6 +101,7 @@ class Expander:
         self.units_seen = []
         self.includes = []
         self._uses = set()
+        self._use_names = set()
 
     # ------------------------------------------------------------------
     def _src(self, rel):
@@ -180,6 +181,19 @@ class Expander:
                 line = "// (duplicate import elided) " + line
             else:
                 self._uses.add(key)
+                # the same leaf name imported through another path / brace list (units combined by import-unit)
+                mb = re.match(r"^use\s+([\w:]+)::\{([\w, ]+)\};\s*$", line)
+                ms = re.match(r"^use\s+([\w:]+)::(\w+);\s*$", line)
+                if mb:
+                    names = [x.strip() for x in mb.group(2).split(",") if x.strip()]
+                    keep = [x for x in names if x not in self._use_names or x == "self"]
+                    self._use_names.update(names)
+                    if len(keep) != len(names):
+                        line = ("use %s::{%s};" % (mb.group(1), ", ".join(keep))) if keep else "// (duplicate import elided) " + line
+                elif ms:
+                    if ms.group(2) in self._use_names:
+                        line = "// (duplicate import elided) " + line
+                    self._use_names.add(ms.group(2))
         org = {"kind": "tmpl", "file": os.path.relpath(path, VERIF), "line": lineno, "unit": unit, "imported": imported}
         if imported and re.match(r"\s*(?:pub\s+)?(?:broadcast\s+)?proof\s+fn\s+\w+", line):
             # a lemma of an imported unit is proved in its own unit; here it is imported by contract
